@@ -58,7 +58,7 @@ ITER = 'fm_inv(iterator): cursor on a char boundary of the input, line_offsets s
 UTF8 = 'UTF-8 bridge axioms (units/common/str_prelude.rs): byte offsets of char prefixes are char boundaries, byte length = sum of encoded lengths, slicing at such an offset splits the char sequence there'
 C02DEP = 'every scan-side statement is over the relations acc / la_ok / cand of the compiled automaton (units/common/dfa_match.rs). What these mean for the patterns is PROVED in unit U-build: theorem_scanner_cand: for mode k of a scanner built by ScannerImpl::try_from, cand(core(dfa), cls, text, l, tid) <==> p_cand(patterns of mode k, lf, text, l, tid) (some pattern with token type tid matches the first l characters and the lookahead of the LAST pattern with that token type that carries one agrees with the rest), under the hypotheses of C02: cls_ok (class predicate = leaf meaning on the final registry), lf_respects, the parser (spec_parse), the size assumptions modes_fit'
 
-reg('C01', ['u_dfa', 'u_mode', 'u_iter', 'u_build', 'u_c01find'],
+reg('C01', ['u_dfa', 'u_mode', 'u_iter', 'u_build', 'u_c01find', 'u_nfa', 'u_mp', 'u_sub', 'u_elim', 'u_mini', 'u_glue', 'u_lang', 'u_reg'],
     'find_from ensures find_post (longest accepted non-empty prefix; ties -> first in terminal_ids) for every wf automaton, class predicate and input; ScannerImpl::find_from/peek_from the same for the active mode; next_match ensures is_next_tok: the token is the find_post outcome at the first char index >= cursor that has any candidate, skipped positions have none, spans absolute (add_offset), cursor moves to the token end; None only if no position has a candidate; lemma_stream_unique: for lookahead-free configurations the whole stream (stream_from = chain of is_next_tok with the mode following the transitions) is a function of configuration, input, position and mode ("exactly the tokens")',
     [WF, CLS, ITER, UTF8, C02DEP, 'add_patterns (token type = pattern index) is not under contract: Vec<Pattern> construction through iterator adapters',
      'KNOWN FINDING D10 (genuine defect, not repaired; known_findings.txt, findings/D10_tie_by_token_type.json): ties are resolved by the first position of the candidate\'s TOKEN TYPE in the mode\'s list (priority_of), which is the position of the pattern only when the token types of the mode are pairwise distinct (theorem_scanner_prio, under tt_distinct); a pattern sharing its token type with an earlier pattern wins ties against the patterns in between. Unit U-c01find carries the obligation without that hypothesis; it fails on every run and is reported as KNOWN-FINDING'],
